@@ -106,9 +106,18 @@ static std::string cmd_sname(const std::vector<std::string> &args)
 // svalid <command hex> <arg hex>                 -> ok | no-arg | need-arg | unknown
 // The string is handed over in a heap block of exactly strlen + 1 bytes (ASan sees a read past the NUL).
 
-#define main naken_util_main_in_harness
+#include <string>
+#include "common/String.h"
+#include "core/AsmContext.h"
+#include "core/UtilContext.h"
+#include "core/version.h"
+#include "fileio/file.h"
+namespace nsafe
+{
+#define main naken_util_main
 #include "main/naken_util.cpp"
 #undef main
+}
 
 static char *safe_heap_str(const std::string &hex)
 {
@@ -302,7 +311,7 @@ static std::string cmd_svalid(const std::vector<std::string> &args)
   char *a = safe_heap_str(args[1]);
   String command(c);
   String arg(a);
-  bool ok = is_command_valid(command, arg);
+  bool ok = nsafe::is_command_valid(command, arg);
   std::string out = capture_take();
   free(c);
   free(a);
